@@ -242,10 +242,10 @@ fn main() {
             });
         },
     );
-    let gcases = (1..=3usize).flat_map(|d| sequences(d, GRID_SETS.len())).map(|a| GridCase { axes: a });
+    let gcases = (0..=3usize).flat_map(|d| sequences(d, GRID_SETS.len())).map(|a| GridCase { axes: a });
     rep.run_sub(
         "grid",
-        "all grids of 1..=3 axes over edge sets {[], [0], [0,4], [0,4,8], [8,0,4,4]} x every point tuple over probes {-1,0,2,4,6,8,9} x every in-range index tuple",
+        "all grids of 0..=3 axes over edge sets {[], [0], [0,4], [0,4,8], [8,0,4,4]} x every point tuple over probes {-1,0,2,4,6,8,9} x every in-range index tuple",
         gcases,
         |c, lx| {
             let d = c.axes.len();
